@@ -1210,5 +1210,35 @@ pub mod verif_hook {
                 },
             }
         }
+
+        /// The pieces of ring memory this `IoUring` works on, as set up (read-only view for a
+        /// test harness that checks them against the kernel's `io_uring_params` offsets), plus
+        /// the address of the completion ring's flags word (0 if absent).
+        #[must_use]
+        pub fn verif_raw_parts(&self) -> (VerifRingParts, usize) {
+            let sq = &self.submission_queue;
+            let cq = &self.completion_queue;
+            (
+                VerifRingParts {
+                    sq_kernel_head: sq.kernel_head.as_ptr().cast(),
+                    sq_kernel_tail: sq.kernel_tail.as_ptr().cast(),
+                    sq_kernel_flags: sq.kernel_flags.as_ptr().cast(),
+                    sq_kernel_dropped: sq.kernel_dropped.as_ptr().cast(),
+                    sq_kernel_array: sq.kernel_array.as_ptr().cast(),
+                    sq_head: sq.head,
+                    sq_tail: sq.tail,
+                    sq_ring_mask: sq.ring_mask,
+                    sq_ring_entries: sq.ring_entries,
+                    sqes: sq.entries.as_ptr(),
+                    cq_kernel_head: cq.kernel_head.as_ptr().cast(),
+                    cq_kernel_tail: cq.kernel_tail.as_ptr().cast(),
+                    cq_kernel_overflow: cq.kernel_overflow.as_ptr().cast(),
+                    cq_ring_mask: cq.ring_mask,
+                    cq_ring_entries: cq.ring_entries,
+                    cqes: cq.entries.as_ptr(),
+                },
+                cq.kernel_flags.map_or(0, |f| f.as_ptr() as usize),
+            )
+        }
     }
 }
